@@ -849,6 +849,39 @@ fn should_do_dollar_command_extension(line: &str) -> bool {
     !libs::re::re_contains(line, r"='.*\$\([^\)]+\).*'$")
 }
 
+/// Split `text` at its first `$(...)`: the text before it, the command
+/// between the (balanced) parentheses and the text after the closing one.
+fn split_first_substitution(text: &str) -> Option<(String, String, String)> {
+    let chars: Vec<char> = text.chars().collect();
+    let mut i = 0;
+    while i + 1 < chars.len() {
+        if chars[i] == '$' && chars[i + 1] == '(' {
+            let mut depth: usize = 1;
+            let mut j = i + 2;
+            while j < chars.len() {
+                if chars[j] == '(' {
+                    depth += 1;
+                } else if chars[j] == ')' {
+                    depth -= 1;
+                    if depth == 0 {
+                        break;
+                    }
+                }
+                j += 1;
+            }
+            if j >= chars.len() {
+                return None;
+            }
+            let head: String = chars[..i].iter().collect();
+            let cmd: String = chars[i + 2..j].iter().collect();
+            let tail: String = chars[j + 1..].iter().collect();
+            return Some((head, cmd, tail));
+        }
+        i += 1;
+    }
+    None
+}
+
 fn do_command_substitution_for_dollar(sh: &mut Shell, tokens: &mut types::Tokens) {
     let mut idx: usize = 0;
     let mut buff: HashMap<usize, String> = HashMap::new();
@@ -861,20 +894,15 @@ fn do_command_substitution_for_dollar(sh: &mut Shell, tokens: &mut types::Tokens
             continue;
         }
 
-        let mut line = token.to_string();
+        // one pass from left to right over the `$(...)` of the word: the
+        // output of a command is appended, never looked at again
+        let mut line = String::new();
+        let mut rest = token.to_string();
         let mut got_operator = false;
         loop {
-            if !should_do_dollar_command_extension(&line) {
-                break;
-            }
-
-            let ptn_cmd = r"\$\((.+)\)";
-            let cmd = match libs::re::find_first_group(ptn_cmd, &line) {
+            let (head, cmd, tail) = match split_first_substitution(&rest) {
                 Some(x) => x,
-                None => {
-                    println_stderr!("cicada: calculator: no first group");
-                    return;
-                }
+                None => break,
             };
 
             let cmd_result = match CommandLine::from_line(&cmd, sh) {
@@ -893,8 +921,7 @@ fn do_command_substitution_for_dollar(sh: &mut Shell, tokens: &mut types::Tokens
                 Err(e) => {
                     println_stderr!("cicada: {}", e);
                     // an inner command that cannot be planned yields an
-                    // empty replacement (a `continue` here would re-scan
-                    // the unchanged word forever)
+                    // empty replacement
                     types::CommandResult::new()
                 }
             };
@@ -904,22 +931,11 @@ fn do_command_substitution_for_dollar(sh: &mut Shell, tokens: &mut types::Tokens
                 got_operator = true;
             }
 
-            let ptn = r"(?P<head>[^\$]*)\$\(.+\)(?P<tail>.*)";
-            let re;
-            if let Ok(x) = Regex::new(ptn) {
-                re = x;
-            } else {
-                return;
-            }
-
-            // the output is literal text: a `$` in it must not be read as a
-            // capture group reference of the replacement template
-            let output_txt = output_txt.replace('$', "$$");
-            let to = format!("${{head}}{}${{tail}}", output_txt);
-            let line_ = line.clone();
-            let result = re.replace(&line_, to.as_str());
-            line = result.to_string();
+            line.push_str(&head);
+            line.push_str(output_txt);
+            rest = tail;
         }
+        line.push_str(&rest);
 
         if got_operator && sep.is_empty() && !is_assignment_word(token) {
             data_words.push(idx);
